@@ -21,10 +21,18 @@ from inline_snapshot import snapshot
 __all__ = [
     "Color", "Perm", "Outer", "DC", "DCD", "DCN", "AT", "PM", "NT", "NTD", "NoCode", "NoCodeBox", "BadCopy", "RaisesEq",
     "Unorderable", "REC", "rec", "ok", "mark", "check_eq", "check_le", "check_ge", "check_in", "G", "set_g",
-    "Is", "outsource", "snapshot", "defaultdict", "ident", "Plain", "EvilEq", "snapshot_alias", "NP", "NPBool", "check_example", "EXAMPLE_SRC", "KW",
+    "Is", "outsource", "snapshot", "defaultdict", "ident", "Plain", "EvilEq", "snapshot_alias", "NP", "NPBool", "check_example", "EXAMPLE_SRC", "KW", "Tags", "FTags", "rec_value",
 ]
 
 defaultdict = collections.defaultdict
+
+
+class Tags(set):
+    """a subclass of set without a __repr__ of its own (it inherits the C-level set.__repr__)"""
+
+
+class FTags(frozenset):
+    """the same for frozenset"""
 
 
 class Color(enum.Enum):
@@ -283,6 +291,18 @@ def rec(eid, thunk):
         if type(e).__name__ in ("Exit", "KeyboardInterrupt", "SystemExit"):
             raise
         v = "E:" + type(e).__name__
+    REC.append([eid, v])
+    return v
+
+
+def rec_value(eid, r):
+    """like rec() for a comparison that was evaluated in place: r is its answer or the exception it raised"""
+    if isinstance(r, BaseException):
+        if type(r).__name__ in ("Exit", "KeyboardInterrupt", "SystemExit"):
+            raise r
+        v = "E:" + type(r).__name__
+    else:
+        v = _enc(r)
     REC.append([eid, v])
     return v
 
